@@ -7,31 +7,31 @@ use cipher::consts::*;
 use cipher::{BlockModeDecrypt, BlockModeEncrypt, InnerIvInit, IvState};
 
 // expected behaviour, written from the property statements (C02/C03); `xs`/`ys` = cipher log
-pub fn m_cbc_enc<const B: usize, const N: usize>(iv: [u8; B], p: [[u8; B]; N], xs: &[[u8; B]], ys: &[[u8; B]]) -> ([[u8; B]; N], [u8; B]) {
+pub fn m_cbc_enc<const N: usize, const B: usize>(iv: [u8; B], p: [[u8; B]; N], xs: &[[u8; B]], ys: &[[u8; B]]) -> ([[u8; B]; N], [u8; B]) {
     let mut prev = iv; let mut out = [[0u8; B]; N];
     let mut i = 0;
     while i < N { assert!(xs[i] == xor(p[i], prev)); out[i] = ys[i]; prev = out[i]; i += 1; }
     (out, prev)
 }
-pub fn m_cbc_dec<const B: usize, const N: usize>(iv: [u8; B], c: [[u8; B]; N], xs: &[[u8; B]], ys: &[[u8; B]]) -> ([[u8; B]; N], [u8; B]) {
+pub fn m_cbc_dec<const N: usize, const B: usize>(iv: [u8; B], c: [[u8; B]; N], xs: &[[u8; B]], ys: &[[u8; B]]) -> ([[u8; B]; N], [u8; B]) {
     let mut prev = iv; let mut out = [[0u8; B]; N];
     let mut i = 0;
     while i < N { assert!(xs[i] == c[i]); out[i] = xor(ys[i], prev); prev = c[i]; i += 1; }
     (out, prev)
 }
-pub fn m_pcbc_enc<const B: usize, const N: usize>(iv: [u8; B], p: [[u8; B]; N], xs: &[[u8; B]], ys: &[[u8; B]]) -> ([[u8; B]; N], [u8; B]) {
+pub fn m_pcbc_enc<const N: usize, const B: usize>(iv: [u8; B], p: [[u8; B]; N], xs: &[[u8; B]], ys: &[[u8; B]]) -> ([[u8; B]; N], [u8; B]) {
     let mut s = iv; let mut out = [[0u8; B]; N];
     let mut i = 0;
     while i < N { assert!(xs[i] == xor(p[i], s)); out[i] = ys[i]; s = xor(p[i], out[i]); i += 1; }
     (out, s)
 }
-pub fn m_pcbc_dec<const B: usize, const N: usize>(iv: [u8; B], c: [[u8; B]; N], xs: &[[u8; B]], ys: &[[u8; B]]) -> ([[u8; B]; N], [u8; B]) {
+pub fn m_pcbc_dec<const N: usize, const B: usize>(iv: [u8; B], c: [[u8; B]; N], xs: &[[u8; B]], ys: &[[u8; B]]) -> ([[u8; B]; N], [u8; B]) {
     let mut s = iv; let mut out = [[0u8; B]; N];
     let mut i = 0;
     while i < N { assert!(xs[i] == c[i]); out[i] = xor(ys[i], s); s = xor(out[i], c[i]); i += 1; }
     (out, s)
 }
-pub fn m_cfb_enc<const B: usize, const N: usize>(iv: [u8; B], p: [[u8; B]; N], xs: &[[u8; B]], ys: &[[u8; B]]) -> ([[u8; B]; N], [u8; B]) {
+pub fn m_cfb_enc<const N: usize, const B: usize>(iv: [u8; B], p: [[u8; B]; N], xs: &[[u8; B]], ys: &[[u8; B]]) -> ([[u8; B]; N], [u8; B]) {
     // cipher call 0 = E(IV) at construction; call i+1 = E(C_i)
     assert!(xs[0] == iv);
     let mut ks = ys[0]; let mut out = [[0u8; B]; N]; let mut last = iv;
@@ -39,14 +39,14 @@ pub fn m_cfb_enc<const B: usize, const N: usize>(iv: [u8; B], p: [[u8; B]; N], x
     while i < N { out[i] = xor(p[i], ks); assert!(xs[i + 1] == out[i]); ks = ys[i + 1]; last = out[i]; i += 1; }
     (out, last)
 }
-pub fn m_cfb_dec<const B: usize, const N: usize>(iv: [u8; B], c: [[u8; B]; N], xs: &[[u8; B]], ys: &[[u8; B]]) -> ([[u8; B]; N], [u8; B]) {
+pub fn m_cfb_dec<const N: usize, const B: usize>(iv: [u8; B], c: [[u8; B]; N], xs: &[[u8; B]], ys: &[[u8; B]]) -> ([[u8; B]; N], [u8; B]) {
     assert!(xs[0] == iv);
     let mut ks = ys[0]; let mut out = [[0u8; B]; N]; let mut last = iv;
     let mut i = 0;
     while i < N { out[i] = xor(c[i], ks); assert!(xs[i + 1] == c[i]); ks = ys[i + 1]; last = c[i]; i += 1; }
     (out, last)
 }
-pub fn m_ofb<const B: usize, const N: usize>(iv: [u8; B], p: [[u8; B]; N], xs: &[[u8; B]], ys: &[[u8; B]]) -> ([[u8; B]; N], [u8; B]) {
+pub fn m_ofb<const N: usize, const B: usize>(iv: [u8; B], p: [[u8; B]; N], xs: &[[u8; B]], ys: &[[u8; B]]) -> ([[u8; B]; N], [u8; B]) {
     let mut o = iv; let mut out = [[0u8; B]; N];
     let mut i = 0;
     while i < N { assert!(xs[i] == o); o = ys[i]; out[i] = xor(p[i], o); i += 1; }
@@ -58,19 +58,19 @@ pub fn m_ofb<const B: usize, const N: usize>(iv: [u8; B], p: [[u8; B]; N], xs: &
 /// The message is processed as two calls split at $split, in place or buffer to buffer ($b2b).
 #[macro_export]
 macro_rules! block_mode_harness {
-    ($h:ident, $unw:expr, $split:expr, $b2b:expr, $cipher:ident, $b:expr, $n:expr, $mode:ty, $call:ident, $call_b2b:ident, $model:ident, $ncalls:expr, $encdir:expr, $state:expr) => {
+    ($h:ident, $unw:expr, $split:expr, $b2b:expr, $cipher:ident, $b:expr, $db:expr, $ivn:expr, $n:expr, $mode:ty, $call:ident, $call_b2b:ident, $model:ident, $ncalls:expr, $encdir:expr, $state:expr) => {
         #[cfg_attr(kani, kani::proof)]
         #[cfg_attr(kani, kani::unwind($unw))]
         pub fn $h() {
             let c = $cipher::new(nd::any());
-            let iv: [u8; $b] = nd::any();
-            let data: [[u8; $b]; $n] = nd::any();
-            let garbage: [[u8; $b]; $n] = nd::any();
+            let iv: [u8; $ivn] = nd::any();
+            let data: [[u8; $db]; $n] = nd::any();
+            let garbage: [[u8; $db]; $n] = nd::any();
             let mut m = <$mode>::inner_iv_init(&c, &iv.into());
             let split: usize = $split;
             let b2b: bool = $b2b;
-            let mut buf: [Block<$cipher>; $n] = data.map(|x| x.into());
-            let mut out: [Block<$cipher>; $n] = garbage.map(|x| x.into());
+            let mut buf: [Block<$mode>; $n] = data.map(|x| x.into());
+            let mut out: [Block<$mode>; $n] = garbage.map(|x| x.into());
             if b2b {
                 m.$call_b2b(&buf[..split], &mut out[..split]).unwrap();
                 m.$call_b2b(&buf[split..], &mut out[split..]).unwrap();
@@ -80,12 +80,12 @@ macro_rules! block_mode_harness {
                 out = buf.clone();
             }
             let xs = c.xs.get();
-            let (exp, st) = $model::<$b, $n>(iv, data, &xs, &c.ys);
+            let (exp, st) = $model(iv, data, &xs, &c.ys);
             let mut i = 0;
             while i < $n {
-                let got: [u8; $b] = out[i].clone().into();
+                let got: [u8; $db] = out[i].clone().into();
                 assert!(got == exp[i]);
-                if b2b { let keep: [u8; $b] = buf[i].clone().into(); assert!(keep == data[i]); }
+                if b2b { let keep: [u8; $db] = buf[i].clone().into(); assert!(keep == data[i]); }
                 i += 1;
             }
             assert!(c.n.get() == $ncalls);
@@ -93,7 +93,7 @@ macro_rules! block_mode_harness {
             let mut k = 0;
             while k < $ncalls { assert!(e[k] == $encdir); k += 1; }
             if $state {
-                let s: [u8; $b] = m.iv_state().into();
+                let s: [u8; $ivn] = m.iv_state().into();
                 assert!(s == st);
             }
         }
@@ -106,13 +106,77 @@ log_cipher!(L2w1, U2, 2, U1, 5);
 log_cipher!(L1w2, U1, 1, U2, 6);
 
 // smallest instances (quick tier): 1 block, then 2 blocks (= one parallel chunk of width 2)
-block_mode_harness!(cbc_enc_b2w2_n3_ip, 6, 1, false, L2w2, 2, 3, cbc::Encryptor<&L2w2>, encrypt_blocks, encrypt_blocks_b2b, m_cbc_enc, 3, true, true);
-block_mode_harness!(cbc_dec_b2w2_n3_ip, 6, 1, false, L2w2, 2, 3, cbc::Decryptor<&L2w2>, decrypt_blocks, decrypt_blocks_b2b, m_cbc_dec, 3, false, true);
-block_mode_harness!(cbc_dec_b2w2_n3_b2b, 6, 1, true, L2w2, 2, 3, cbc::Decryptor<&L2w2>, decrypt_blocks, decrypt_blocks_b2b, m_cbc_dec, 3, false, true);
-block_mode_harness!(pcbc_enc_b2w2_n3_ip, 6, 1, false, L2w2, 2, 3, pcbc::Encryptor<&L2w2>, encrypt_blocks, encrypt_blocks_b2b, m_pcbc_enc, 3, true, true);
-block_mode_harness!(pcbc_dec_b2w2_n3_b2b, 6, 1, true, L2w2, 2, 3, pcbc::Decryptor<&L2w2>, decrypt_blocks, decrypt_blocks_b2b, m_pcbc_dec, 3, false, true);
-block_mode_harness!(cfb_enc_b2w2_n3_b2b, 6, 1, true, L2w2, 2, 3, cfb_mode::Encryptor<&L2w2>, encrypt_blocks, encrypt_blocks_b2b, m_cfb_enc, 4, true, false);
-block_mode_harness!(cfb_dec_b2w2_n3_ip, 6, 1, false, L2w2, 2, 3, cfb_mode::Decryptor<&L2w2>, decrypt_blocks, decrypt_blocks_b2b, m_cfb_dec, 4, true, false);
-block_mode_harness!(cfb_dec_b2w2_n3_b2b, 6, 1, true, L2w2, 2, 3, cfb_mode::Decryptor<&L2w2>, decrypt_blocks, decrypt_blocks_b2b, m_cfb_dec, 4, true, false);
-block_mode_harness!(ofb_enc_b2w2_n3_b2b, 6, 1, true, L2w2, 2, 3, ofb::OfbCore<&L2w2>, encrypt_blocks, encrypt_blocks_b2b, m_ofb, 3, true, true);
-block_mode_harness!(ofb_dec_b2w2_n3_ip, 6, 1, false, L2w2, 2, 3, ofb::OfbCore<&L2w2>, decrypt_blocks, decrypt_blocks_b2b, m_ofb, 3, true, true);
+block_mode_harness!(cbc_enc_b2w2_n3_ip, 6, 1, false, L2w2, 2, 2, 2, 3, cbc::Encryptor<&L2w2>, encrypt_blocks, encrypt_blocks_b2b, m_cbc_enc, 3, true, true);
+block_mode_harness!(cbc_dec_b2w2_n3_ip, 6, 1, false, L2w2, 2, 2, 2, 3, cbc::Decryptor<&L2w2>, decrypt_blocks, decrypt_blocks_b2b, m_cbc_dec, 3, false, true);
+block_mode_harness!(cbc_dec_b2w2_n3_b2b, 6, 1, true, L2w2, 2, 2, 2, 3, cbc::Decryptor<&L2w2>, decrypt_blocks, decrypt_blocks_b2b, m_cbc_dec, 3, false, true);
+block_mode_harness!(pcbc_enc_b2w2_n3_ip, 6, 1, false, L2w2, 2, 2, 2, 3, pcbc::Encryptor<&L2w2>, encrypt_blocks, encrypt_blocks_b2b, m_pcbc_enc, 3, true, true);
+block_mode_harness!(pcbc_dec_b2w2_n3_b2b, 6, 1, true, L2w2, 2, 2, 2, 3, pcbc::Decryptor<&L2w2>, decrypt_blocks, decrypt_blocks_b2b, m_pcbc_dec, 3, false, true);
+block_mode_harness!(cfb_enc_b2w2_n3_b2b, 6, 1, true, L2w2, 2, 2, 2, 3, cfb_mode::Encryptor<&L2w2>, encrypt_blocks, encrypt_blocks_b2b, m_cfb_enc, 4, true, false);
+block_mode_harness!(cfb_dec_b2w2_n3_ip, 6, 1, false, L2w2, 2, 2, 2, 3, cfb_mode::Decryptor<&L2w2>, decrypt_blocks, decrypt_blocks_b2b, m_cfb_dec, 4, true, false);
+block_mode_harness!(cfb_dec_b2w2_n3_b2b, 6, 1, true, L2w2, 2, 2, 2, 3, cfb_mode::Decryptor<&L2w2>, decrypt_blocks, decrypt_blocks_b2b, m_cfb_dec, 4, true, false);
+block_mode_harness!(ofb_enc_b2w2_n3_b2b, 6, 1, true, L2w2, 2, 2, 2, 3, ofb::OfbCore<&L2w2>, encrypt_blocks, encrypt_blocks_b2b, m_ofb, 3, true, true);
+block_mode_harness!(ofb_dec_b2w2_n3_ip, 6, 1, false, L2w2, 2, 2, 2, 3, ofb::OfbCore<&L2w2>, decrypt_blocks, decrypt_blocks_b2b, m_ofb, 3, true, true);
+
+// ---- IGE (double-length IV = C_0 || P_0) and CFB-8 (mode block = 1 byte, register = cipher block)
+pub fn m_ige_enc<const N: usize, const B: usize, const B2: usize>(iv: [u8; B2], p: [[u8; B]; N], xs: &[[u8; B]], ys: &[[u8; B]]) -> ([[u8; B]; N], [u8; B2]) {
+    let mut c_prev = [0u8; B]; let mut p_prev = [0u8; B];
+    let mut j = 0; while j < B { c_prev[j] = iv[j]; p_prev[j] = iv[B + j]; j += 1; }
+    let mut out = [[0u8; B]; N];
+    let mut i = 0;
+    while i < N { assert!(xs[i] == xor(p[i], c_prev)); out[i] = xor(ys[i], p_prev); c_prev = out[i]; p_prev = p[i]; i += 1; }
+    let mut st = [0u8; B2]; let mut j = 0; while j < B { st[j] = c_prev[j]; st[B + j] = p_prev[j]; j += 1; }
+    (out, st)
+}
+pub fn m_ige_dec<const N: usize, const B: usize, const B2: usize>(iv: [u8; B2], c: [[u8; B]; N], xs: &[[u8; B]], ys: &[[u8; B]]) -> ([[u8; B]; N], [u8; B2]) {
+    let mut c_prev = [0u8; B]; let mut p_prev = [0u8; B];
+    let mut j = 0; while j < B { c_prev[j] = iv[j]; p_prev[j] = iv[B + j]; j += 1; }
+    let mut out = [[0u8; B]; N];
+    let mut i = 0;
+    while i < N { assert!(xs[i] == xor(c[i], p_prev)); out[i] = xor(ys[i], c_prev); c_prev = c[i]; p_prev = out[i]; i += 1; }
+    let mut st = [0u8; B2]; let mut j = 0; while j < B { st[j] = c_prev[j]; st[B + j] = p_prev[j]; j += 1; }
+    (out, st)
+}
+pub fn m_cfb8_enc<const N: usize, const B: usize>(iv: [u8; B], p: [[u8; 1]; N], xs: &[[u8; B]], ys: &[[u8; B]]) -> ([[u8; 1]; N], [u8; B]) {
+    let mut s = iv; let mut out = [[0u8; 1]; N];
+    let mut i = 0;
+    while i < N {
+        assert!(xs[i] == s);
+        let c = p[i][0] ^ ys[i][0];
+        out[i] = [c];
+        let mut j = 0; while j + 1 < B { s[j] = s[j + 1]; j += 1; }
+        s[B - 1] = c;
+        i += 1;
+    }
+    (out, s)
+}
+pub fn m_cfb8_dec<const N: usize, const B: usize>(iv: [u8; B], c: [[u8; 1]; N], xs: &[[u8; B]], ys: &[[u8; B]]) -> ([[u8; 1]; N], [u8; B]) {
+    let mut s = iv; let mut out = [[0u8; 1]; N];
+    let mut i = 0;
+    while i < N {
+        assert!(xs[i] == s);
+        out[i] = [c[i][0] ^ ys[i][0]];
+        let mut j = 0; while j + 1 < B { s[j] = s[j + 1]; j += 1; }
+        s[B - 1] = c[i][0];
+        i += 1;
+    }
+    (out, s)
+}
+log_cipher!(L3w2, U3, 3, U2, 6);
+log_cipher!(L1w3, U1, 1, U3, 6);
+block_mode_harness!(ige_enc_b2w2_n3_b2b, 6, 1, true, L2w2, 2, 2, 4, 3, ige::Encryptor<&L2w2>, encrypt_blocks, encrypt_blocks_b2b, m_ige_enc, 3, true, true);
+block_mode_harness!(ige_dec_b2w2_n3_ip, 6, 1, false, L2w2, 2, 2, 4, 3, ige::Decryptor<&L2w2>, decrypt_blocks, decrypt_blocks_b2b, m_ige_dec, 3, false, true);
+block_mode_harness!(ige_dec_b3w2_n3_b2b, 8, 1, true, L3w2, 3, 3, 6, 3, ige::Decryptor<&L3w2>, decrypt_blocks, decrypt_blocks_b2b, m_ige_dec, 3, false, true);
+block_mode_harness!(cfb8_enc_b2w2_n4_b2b, 7, 1, true, L2w2, 2, 1, 2, 4, cfb8::Encryptor<&L2w2>, encrypt_blocks, encrypt_blocks_b2b, m_cfb8_enc, 4, true, true);
+block_mode_harness!(cfb8_dec_b2w2_n4_ip, 7, 1, false, L2w2, 2, 1, 2, 4, cfb8::Decryptor<&L2w2>, decrypt_blocks, decrypt_blocks_b2b, m_cfb8_dec, 4, true, true);
+block_mode_harness!(cfb8_dec_b3w2_n4_b2b, 8, 1, true, L3w2, 3, 1, 3, 4, cfb8::Decryptor<&L3w2>, decrypt_blocks, decrypt_blocks_b2b, m_cfb8_dec, 4, true, true);
+// other shapes: odd width, 3-byte blocks, 1-byte blocks (thorough tier / native search)
+block_mode_harness!(cbc_dec_b3w3_n5_b2b, 9, 1, true, L3w3, 3, 3, 3, 5, cbc::Decryptor<&L3w3>, decrypt_blocks, decrypt_blocks_b2b, m_cbc_dec, 5, false, true);
+block_mode_harness!(cbc_dec_b3w3_n5_ip, 9, 2, false, L3w3, 3, 3, 3, 5, cbc::Decryptor<&L3w3>, decrypt_blocks, decrypt_blocks_b2b, m_cbc_dec, 5, false, true);
+block_mode_harness!(cbc_enc_b3w3_n4_b2b, 9, 1, true, L3w3, 3, 3, 3, 4, cbc::Encryptor<&L3w3>, encrypt_blocks, encrypt_blocks_b2b, m_cbc_enc, 4, true, true);
+block_mode_harness!(cbc_dec_b1w3_n5_b2b, 9, 1, true, L1w3, 1, 1, 1, 5, cbc::Decryptor<&L1w3>, decrypt_blocks, decrypt_blocks_b2b, m_cbc_dec, 5, false, true);
+block_mode_harness!(pcbc_dec_b3w3_n4_b2b, 9, 1, true, L3w3, 3, 3, 3, 4, pcbc::Decryptor<&L3w3>, decrypt_blocks, decrypt_blocks_b2b, m_pcbc_dec, 4, false, true);
+block_mode_harness!(pcbc_enc_b3w3_n4_b2b, 9, 1, true, L3w3, 3, 3, 3, 4, pcbc::Encryptor<&L3w3>, encrypt_blocks, encrypt_blocks_b2b, m_pcbc_enc, 4, true, true);
+block_mode_harness!(cfb_dec_b3w3_n5_b2b, 9, 1, true, L3w3, 3, 3, 3, 5, cfb_mode::Decryptor<&L3w3>, decrypt_blocks, decrypt_blocks_b2b, m_cfb_dec, 6, true, false);
+block_mode_harness!(cfb_dec_b3w3_n5_ip, 9, 2, false, L3w3, 3, 3, 3, 5, cfb_mode::Decryptor<&L3w3>, decrypt_blocks, decrypt_blocks_b2b, m_cfb_dec, 6, true, false);
+block_mode_harness!(cfb_enc_b3w3_n4_ip, 9, 1, false, L3w3, 3, 3, 3, 4, cfb_mode::Encryptor<&L3w3>, encrypt_blocks, encrypt_blocks_b2b, m_cfb_enc, 5, true, false);
+block_mode_harness!(ofb_enc_b3w3_n4_ip, 9, 1, false, L3w3, 3, 3, 3, 4, ofb::OfbCore<&L3w3>, encrypt_blocks, encrypt_blocks_b2b, m_ofb, 4, true, true);
